@@ -123,8 +123,40 @@ def run(d, ids, tier):
     return 0
 
 
+def matrix(tier, jobs=3):
+    """Run every seeded change against its own property's check (VERIF_SEED from the environment);
+    prints one line each and a summary.  Does not touch meta.json."""
+    import glob
+    from concurrent.futures import ThreadPoolExecutor
+
+    dirs = sorted(glob.glob(os.path.join(VERIF, "seeded", "*")))
+
+    def one(d):
+        meta = json.load(open(os.path.join(d, "meta.json")))
+        wt = worktree()
+        try:
+            rca, outa = sh(["git", "-C", wt, "apply", os.path.join(d, "patch.diff")])
+            if rca:
+                return os.path.basename(d), "PATCH-DOES-NOT-APPLY", []
+            rc, out = sh([PY, "-m", "vf.run", meta["property"], "--tier", tier], cwd=VERIF, env=dict(os.environ, VERIF_REPO=wt))
+            return os.path.basename(d), rc, re.findall(r"violated: (\S+)", out)[:3]
+        finally:
+            rm_worktree(wt)
+            shutil.rmtree(os.path.join("/tmp", "vf-scratch-out", os.path.basename(wt)), ignore_errors=True)
+
+    missed = []
+    with ThreadPoolExecutor(jobs) as ex:
+        for name, rc, keys in ex.map(one, dirs):
+            print("%-8s exit=%s %s" % (name, rc, keys), flush=True)
+            if rc != 1:
+                missed.append(name)
+    print("seed=%s tier=%s: %d seeded changes, %d not detected: %s" % (os.environ.get("VERIF_SEED", "1"), tier, len(dirs), len(missed), missed))
+
+
 if __name__ == "__main__":
     a = sys.argv[1:]
+    if a and a[0] == "matrix":
+        sys.exit(matrix(a[1] if len(a) > 1 else "quick", int(a[2]) if len(a) > 2 else 3))
     if a and a[0] == "confirm":
         sys.exit(confirm(os.path.abspath(a[1]), a[2], a[3]))
     if a and a[0] == "run":
